@@ -6,7 +6,7 @@ chosen PCG states against the Lean model, with first words forced onto every bou
 acceptance rule (ceiling-1, ceiling, MaxUint64-n, MaxUint64-n+1, MaxUint64) and forced rejections.
 """
 from lib import pcg
-from lib.common import Run
+from lib.common import Run, hx, unhx, lean_child
 
 M64 = (1 << 64) - 1
 MAXN = (1 << 63) - 2
@@ -106,6 +106,50 @@ def main(tier):
                     run.violation("face-out-of-range", {"case": ln, "implementation": g, "model": m})
         for c in cases[:3] + [c for c in cases if c[2] == "double-reject"][:2] + [c for c in cases if c[2] == "boundary"][:2]:
             run.sample({"stream": "roll", "state": f"{c[0]:032x}", "sides": c[1], "kind": c[2]})
+        # successive dice of ONE evaluation are independent draws: a list of single dice, some of them clamped (min / max), from a seed;
+        # the expected faces come from the model's Roll chained over the generator state (the clamp of one term is not the next one's)
+        r = run.rng
+        progs = []
+        for _ in range(400 if tier == "thorough" else 120):
+            terms = []
+            for _t in range(r.randint(2, 4)):
+                n = r.choice((2, 3, 6, 10, 20, 100, 1000, 7, 12))
+                k = r.random()
+                if k < 0.3 and n > 2:
+                    terms.append((n, "min", r.randint(max(2, n // 2), n)))
+                elif k < 0.5 and n > 2:
+                    terms.append((n, "max", r.randint(1, max(1, n // 3))))
+                else:
+                    terms.append((n, "", 0))
+            progs.append((r.getrandbits(128), terms))
+        states = [st for st, _ in progs]
+        faces = [[] for _ in progs]
+        for pos in range(4):
+            idx = [i for i, (_, ts) in enumerate(progs) if len(ts) > pos]
+            outm = lean_child().run([f"roll {states[i]:032x} {progs[i][1][pos][0]} 0" for i in idx])
+            for i, o in zip(idx, outm):
+                v, nst = o.split()
+                faces[i].append(int(v))
+                states[i] = int(nst, 16)
+        vlines = []
+        for (st, ts), fs in zip(progs, faces):
+            src = "[" + ", ".join(f"d{n}{m}{a if m else ''}" for n, m, a in ts) + "]"
+            vlines.append(f"runseq -,L30000 {st:032x} {hx(src)}")
+        for (ln, g), (st, ts), fs, endst in zip(run.go_only("vm-successive-dice", vlines), progs, faces, states):
+            exp = [max(f, a) if m == "min" else (min(f, a) if m == "max" else f) for f, (n, m, a) in zip(fs, ts)]
+            want = "ok [" + " ".join(f"i{x}" for x in exp) + "] "
+            run.nontriv(("vm-dice", ln))
+            if not g.startswith(want) or f"seed={endst:032x}" not in g:
+                run.violation("vm-successive-dice:not-the-model's-independent-draws",
+                              {"case": ln, "source": unhx(ln.split()[3]).decode(), "seed": f"{st:032x}", "expected_faces": exp,
+                               "expected_seed_after": f"{endst:032x}", "implementation": g[:300]})
+        # the seed a context reports is the state of the generator its dice come from — also for a context that was never seeded
+        # (it draws from the shared source): restoring the reported bytes into another context replays the dice
+        ul = [f"unseededseed {hx(src)}" for src in ("10d1000000000", "d100 + d100", "[d20, d20, d20]", "3d6")]
+        for ln, g in run.go_only("unseeded-seed", ul):
+            run.nontriv(("unseeded", ln))
+            if not g.startswith("same "):
+                run.violation("unseeded-context:reported-seed-does-not-replay-its-dice", {"case": ln, "source": unhx(ln.split()[1]).decode(), "implementation": g[:300]})
         # the word stream itself (PCG tie) — short, the rng stream proper belongs to C06
         lines2 = [f"rng {run.rng.getrandbits(128):032x} 4" for _ in range(50)]
         run.diff_stream("rng", lines2)
